@@ -35,11 +35,25 @@ def World.spaceOfCell (w : World) (c : CellId) : Nat :=
 def World.spaceOfRef (w : World) (r : RefId) : Nat :=
   match w.refSpace.find? (·.1 == r) with | some e => e.2 | none => 0
 
+/-- the id was given a space (`space cell`): a cells of that name may exist, or not (deleted, not
+created yet); `w.cells` holds the definitions of the cells that exist -/
+def World.declared (w : World) (c : CellId) : Bool := w.cellSpace.any (·.1 == c)
+
+/-- for the formula of a cells in space `k`: a declared cells that does not exist, and whether the
+formula spells it through an attribute path (it lives in the other space) -/
+def World.deadFor (w : World) (k : Nat) (c : CellId) : Option Bool :=
+  if (w.cell? c).isNone && w.declared c then some (w.spaceOfCell c != k) else none
+
 def World.env (w : World) : Env where
   formula := fun n => match w.cell? n.1 with
-    | some d => formulaOf (fun c => (w.cell? c).map (·.nparams))
-        (scopeExpr (fun r => w.spaceOfRef r == w.spaceOfCell n.1) d.body) n.2
+    | some d => formulaOf (fun c => match w.cell? c with
+          | some d' => some d'.nparams
+          | none => if w.declared c then some 0 else none)
+        (scopeExpr (fun r => w.spaceOfRef r == w.spaceOfCell n.1)
+          (deadExpr (w.deadFor (w.spaceOfCell n.1)) d.body)) n.2
     | none => .raise (.user kName)
+  alive := fun c => (w.cell? c).isSome
+  siblings := fun c => ((w.cells.map (·.1)).filter (fun c' => w.spaceOfCell c' == w.spaceOfCell c)).reverse
   cached := fun c => match w.cell? c with | some d => d.cached | none => true
   allowNone := fun c => match w.cell? c with
     | some d => resolveAllowNone d.allowNone w.anSpace w.anModel
@@ -140,7 +154,7 @@ def step (w : World) (line : String) : World × String :=
     match id.toNat?, parseKey args with
     | some id, some key =>
       match w.cell? id with
-      | none => (w, "err Name")
+      | none => (w, if w.declared id then "err Deleted" else "err Name")
       | some d =>
         if key.length != d.nparams then (w, "err Type") else
         let (r, st') := evalTop w.env (id, key) w.st
@@ -156,7 +170,7 @@ def step (w : World) (line : String) : World × String :=
       match parseVal? v, parseKey revargs.reverse with
       | some v, some key =>
         match w.cell? id with
-        | none => (w, "err Name")
+        | none => (w, if w.declared id then "err Deleted" else "err Name")
         | some d =>
           if !d.cached then (w, "err Value") else
           if key.length != d.nparams then (w, "err Type") else
@@ -166,8 +180,29 @@ def step (w : World) (line : String) : World × String :=
     | _, _ => (w, "bad-op")
   | "clearat" :: id :: args =>
     match id.toNat?, parseKey args with
-    | some id, some key => ({ w with st := w.st.clearValueAt (id, key) true }, "ok")
+    | some id, some key =>
+      if (w.cell? id).isNone && w.declared id then (w, "err Deleted") else
+      ({ w with st := w.st.clearValueAt (id, key) true }, "ok")
     | _, _ => (w, "bad-op")
+  | "delcell" :: [id] =>
+    -- `del space.c`: the clearing under the old definitions, then the cells is gone
+    match id.toNat? with
+    | some id =>
+      match w.cell? id with
+      | none => (w, "err Key")
+      | some _ => ({ w with st := w.st.delCell w.env id, cells := w.cells.filter (·.1 != id) }, "ok")
+    | none => (w, "bad-op")
+  | "newcell" :: id :: cached :: an :: np :: body =>
+    -- `space.new_cells(name, formula, is_cached)` (+ `allow_none`, which clears nothing)
+    match id.toNat?, np.toNat?, parseExpr body with
+    | some id, some np, some (e, []) =>
+      if !blocksSimple e then (w, "unsupported: a try inside an except/finally block") else
+      match w.cell? id with
+      | some _ => (w, "err Value")
+      | none =>
+        let d : CellDef := { cached := cached = "1", allowNone := (if an = "n" then none else some (an = "1")), nparams := np, body := e }
+        ({ w with st := w.st.newCell w.env id, cells := (id, d) :: w.cells }, "ok")
+    | _, _, _ => (w, "bad-op")
   | ["space", "cell", id, k] => match id.toNat?, k.toNat? with
     | some id, some k => ({ w with cellSpace := (id, k) :: w.cellSpace.filter (·.1 != id) }, "ok")
     | _, _ => (w, "bad-op")
@@ -191,7 +226,7 @@ def step (w : World) (line : String) : World × String :=
     | some id, some (e, []) =>
       if !blocksSimple e then (w, "unsupported: a try inside an except/finally block") else
       match w.cell? id with
-      | none => (w, "err Name")
+      | none => (w, if w.declared id then "err Deleted" else "err Name")
       | some d =>
         ({ w with st := w.st.setFormula id,
                   cells := w.cells.map (fun x => if x.1 == id then (id, { d with body := e }) else x) }, "ok")
@@ -200,7 +235,7 @@ def step (w : World) (line : String) : World × String :=
     match id.toNat? with
     | some id =>
       match w.cell? id with
-      | none => (w, "err Name")
+      | none => (w, if w.declared id then "err Deleted" else "err Name")
       | some d =>
         -- the setter of `Cells.is_cached` returns at once when the flag already has that value
         if d.cached == (b = "1") then (w, "ok") else
@@ -208,10 +243,14 @@ def step (w : World) (line : String) : World × String :=
                   cells := w.cells.map (fun x => if x.1 == id then (id, { d with cached := b = "1" }) else x) }, "ok")
     | none => (w, "bad-op")
   | ["clear", id] => match id.toNat? with
-    | some id => ({ w with st := w.st.clearAllValues id false }, "ok")
+    | some id =>
+      if (w.cell? id).isNone && w.declared id then (w, "err Deleted") else
+      ({ w with st := w.st.clearAllValues id false }, "ok")
     | none => (w, "bad-op")
   | ["clearall", id] => match id.toNat? with
-    | some id => ({ w with st := w.st.clearAllValues id true }, "ok")
+    | some id =>
+      if (w.cell? id).isNone && w.declared id then (w, "err Deleted") else
+      ({ w with st := w.st.clearAllValues id true }, "ok")
     | none => (w, "bad-op")
   | ["obs", what] => obs w what
   | _ => (w, "bad-op")
